@@ -42,7 +42,10 @@ func (p plainReaderAt) ReadAt(q []byte, off int64) (int, error) {
 // been read from sequentially before (a caller that sniffed the magic, or skipped a prefix):
 // random access does not depend on any read position.
 func arSource(data []byte) io.ReaderAt {
-	switch (len(data)/3 + len(data)) % 5 {
+	switch (len(data)/3 + len(data)) % 6 {
+	case 5:
+		// a section whose declared length is far larger than the data behind it
+		return io.NewSectionReader(bytes.NewReader(data), 0, 1<<62)
 	case 1:
 		r := bytes.NewReader(data)
 		io.CopyN(io.Discard, r, 8)
